@@ -23,7 +23,24 @@ border of the area running through the bulge of a curved tile edge with all four
 MapProxy with densified edges (must satisfy the property) or, in 20% of the events, with their few vertices only (MapProxy
 transforms geometries vertex by vertex, so the clip edge is a chord: violations are reported under their own signature
 SPARSE_SIG).
+
+Worlds with an SRS extent (both directions): the WMS service declares an extent for the request SRS and its alias code
+(`services: wms: bbox_srs`, c10_world.World(ext=...)); a lattice rectangle whose edges are no multiples of the pixel sizes.
+WMSServer.map answers a GetMap that does not meet the extent with a blank image before anything else happens (Auth.tla
+OutsideExtent: no callback, no upstream request) and reduces a GetMap that reaches beyond the extent to the part inside
+(bbox_position_in_image -> sub-query -> SubImageSource; Auth.tla Sub, SubClass, RenderAndMerge); GetFeatureInfo ignores the
+extent.  The exhaustive instance `srs-extent` (boxes inside / across one, two, all four edges / outside; areas with borders
+inside, outside and across the extent, per layer and request wide) is model checked in two variants: the reference whose
+sub-image is not displaced satisfies the property, the model of the code as found (sub-image displaced by up to one output
+pixel, masks drawn in the geometry of the sub-query) gives the table every pair is compared with on the real application
+(png, every fourth GetMap also as jpeg, every third request under the alias code).  Responses that the model of the code
+predicts, that the reference does not allow and on which the model violates the property are handed to TLC (Trace_Auth,
+ClippedOutsideOn / ContentInsideOn on the observation): violations are reported under EXT_SIG.  Random GetMap (png, jpeg) /
+GetFeatureInfo / tile requests of three such worlds are recorded and validated through Trace_Auth (ExactChoices = BOOLEAN for
+GetMap reaching beyond the extent); vacuity counters guard that requests crossed the extent with a limit in force and that
+blank answers occurred.
 """
+import collections
 import io
 import json
 import os
@@ -39,7 +56,7 @@ SPEC = os.path.join(tlc.SPEC_DIR, 'Auth.tla')
 TRACE_SPEC = os.path.join(tlc.SPEC_DIR, 'trace', 'Trace_Auth.tla')
 CODES = {'dark': 1, 'a': 2, 'b': 4, 'c': 8, 'g': 16}
 NAMES_OF = {v: k for k, v in CODES.items()}
-ACTIONS = ['CollectLayers', 'CallAuthorize', 'FilterActualLayers', 'RenderAndMerge', 'InfoGate', 'WmsCapabilities',
+ACTIONS = ['OutsideExtent', 'CollectLayers', 'CallAuthorize', 'FilterActualLayers', 'RenderAndMerge', 'InfoGate', 'WmsCapabilities',
            'TileAuthorize', 'TileRender', 'TileInfoGate', 'TileDocument', 'TileCapabilities']
 PROPERTY = ['DeniedStaysDark', 'ClippedOutside', 'ContentInside', 'InfoGateOK']
 BASE_INV = ['TypeOK', 'StatusOK']
@@ -315,11 +332,13 @@ def tile_rows(world, z):
 
 
 def url_of(world, r, fmt='png', version='1.1.1'):
+    """fmt: png | jpeg, with the suffix +alias the WMS request names the alias code of the request SRS (same-SRS worlds)"""
     f = r['f']
     x0, y0, rx, ry, w, h = r['box']
+    fmt, _, srs_variant = fmt.partition('+')
     if f in ('wms.map', 'wms.fi'):
         base = ('/service?SERVICE=WMS&VERSION=1.1.1&STYLES=&SRS=%s&BBOX=%d,%d,%d,%d&WIDTH=%d&HEIGHT=%d' % (
-            world.srs, world.sx(x0), world.sy(y0), world.sx(x0 + w * rx), world.sy(y0 + h * ry), w, h))
+            W.SRS_ALIAS if srs_variant == 'alias' and not world.frame else world.srs, world.sx(x0), world.sy(y0), world.sx(x0 + w * rx), world.sy(y0 + h * ry), w, h))
         if f == 'wms.map':
             return base + '&REQUEST=GetMap&LAYERS=%s&FORMAT=image/%s&TRANSPARENT=%s' % (
                 ','.join(r['ls']), fmt, 'true' if fmt == 'png' else 'false')
@@ -361,6 +380,22 @@ SERVICE_STRING = {'wms.map': 'wms.map', 'wms.fi': 'wms.featureinfo', 'wms.caps':
                   'tms.layer': 'tms', 'tms.caps': 'tms', 'kml': 'kml', 'kml.doc': 'kml', 'wmts.kvp': 'wmts', 'wmts.rest': 'wmts',
                   'wmts.caps': 'wmts', 'wmts.fi.kvp': 'wmts.featureinfo', 'wmts.fi.rest': 'wmts.featureinfo'}
 IMAGE_FEATURES = ('wms.map', 'tms', 'kml', 'wmts.kvp', 'wmts.rest')
+
+
+def ext_relation(world, box):
+    """the box of a WMS GetMap against the SRS extent of the world, as WMSServer.map decides (Auth.tla ExtContains, ExtMeets,
+    Sub) -> ('none' | 'inside' | 'blank' | 'clipped', (l, r, t, bt) pixel rectangle of the pasted sub-image or None)"""
+    e = world.ext
+    if not e:
+        return 'none', None
+    x0, y0, rx, ry, w, h = box
+    x1, y1 = x0 + w * rx, y0 + h * ry
+    if e[0] <= x0 and e[1] <= y0 and x1 <= e[2] and y1 <= e[3]:
+        return 'inside', None
+    if not (e[0] < x1 and e[2] > x0 and e[1] < y1 and e[3] > y0):
+        return 'blank', None
+    return 'clipped', ((e[0] - x0) // rx if e[0] > x0 else 0, (e[2] - x0) // rx if e[2] < x1 else w,
+                       (y1 - e[3]) // ry if e[3] < y1 else 0, (y1 - e[1]) // ry if e[1] > y0 else h)
 
 
 def classify_pixels(body, lossy_ok):
@@ -408,7 +443,11 @@ def observe(world, app, r, cbrec, geoms, variant, fmt='png'):
     kinds = {k for n, k in log}
     if kinds - ({'fi'} if f in ('wms.fi', 'wmts.fi.kvp', 'wmts.fi.rest') else {'map'}):
         obs['problems'].append('upstream requests of the wrong kind: %s' % sorted(log))
-    if len(calls) != 1:
+    if f == 'wms.map' and ext_relation(world, r['box'])[0] == 'blank':
+        # the BBOX does not meet the extent of the request SRS: answered before the callback is asked (Auth.tla OutsideExtent)
+        if calls:
+            obs['problems'].append('callback called %d times for a request outside the SRS extent' % len(calls))
+    elif len(calls) != 1:
         obs['problems'].append('callback called %d times' % len(calls))
     elif calls[0][0] != SERVICE_STRING[f]:
         obs['problems'].append('callback called for service %r' % calls[0][0])
@@ -419,7 +458,7 @@ def observe(world, app, r, cbrec, geoms, variant, fmt='png'):
             if not ct.startswith('image/'):
                 obs['problems'].append('content type %s' % ct)
             else:
-                obs['px'], obs['lossy'] = classify_pixels(body, fmt != 'png')
+                obs['px'], obs['lossy'] = classify_pixels(body, not fmt.startswith('png'))
         elif f in ('wms.fi', 'wmts.fi.kvp', 'wmts.fi.rest'):
             obs['infos'] = sorted(set(re.findall(r'info:(\w+)', body.decode('utf8', 'replace'))))
         elif f == 'wms.caps':
@@ -461,7 +500,7 @@ def compare(out, obs):
         for i, (m, c) in enumerate(zip(erow, orow)):
             if c and (m // c) % 2 == 1:
                 continue
-            if c == 0 and obs['lossy'] and m not in (1, 2, 4, 8, 16):
+            if c == 0 and obs['lossy'] and not smooth(px, i, j):
                 continue
             where = where or (i, j, m, c)
             if c == 0:
@@ -479,12 +518,30 @@ def compare(out, obs):
     return bad
 
 
+def smooth(px, i, j):
+    """Trace_Auth.tla Smooth: the allowed values are one and the same single value in the 5x5 neighbourhood (jpeg answers:
+    an unclassifiable colour is accepted elsewhere)"""
+    m = px[j][i]
+    if m not in (1, 2, 4, 8, 16):
+        return False
+    return all(px[jj][ii] == m for jj in range(max(0, j - 2), min(len(px), j + 3)) for ii in range(max(0, i - 2), min(len(px[j]), i + 3)))
+
+
 def family(f):
     return f.split('.')[0]
 
 
 DEFECT_SIG = {'kind': 'request-limit-ignored', 'where': 'authorize_tile_layer',
               'cause': 'layer-limited_to-takes-precedence-over-request-limited_to'}
+DEFECT_TEXT = ('the request-wide limited_to is not applied when the layer has a limited_to of its own (pixels / feature info '
+               'outside the request-wide area are served)')
+# WMS GetMap reaching beyond the extent of the request SRS (services: wms: bbox_srs): the part inside the extent is rendered
+# as a sub-query squeezed into a pixel rectangle with int()-truncated offsets and pasted, the limited_to masks are drawn in
+# the geometry of the sub-query: content up to about 1.3 output pixels outside the permitted area
+EXT_SIG = {'kind': 'srs-extent', 'cause': 'clipped-sub-image-displaced-up-to-one-pixel'}
+EXT_TEXT = ('the part of the request inside the SRS extent is rendered as a sub-query whose pixel grid is displaced by up to one output '
+            'pixel (bbox_position_in_image truncates the offsets, SubImageSource pastes at whole pixels) and the limited_to masks are '
+            'drawn in that geometry: content is visible more than one output pixel outside the permitted area')
 
 
 # ---------------------------------------------------------------------------------------------------------------
@@ -494,19 +551,25 @@ class Instance(object):
     """one exhaustive instance: a world + request universe + callback universe"""
 
     def __init__(self, name, world, requests, auth, perms, lims, globs, entries, geoms=None, variants=('found',)):
+        """variants: ('found',) | ('found', 'repaired') (tile services: both limits applied) | ('found', 'exact') (world with
+        an SRS extent: the reference model whose sub-image is not displaced)"""
         self.name, self.world, self.requests = name, world, requests
         self.auth, self.perms, self.lims, self.globs, self.entries = auth, perms, lims, globs, entries
         self.geoms = geoms or CATALOGUE
         self.variants = variants
+        self.other = 'repaired' if 'repaired' in variants else 'exact' if 'exact' in variants else None
+        self.defect_sig, self.defect_text = (EXT_SIG, EXT_TEXT) if self.other == 'exact' else (DEFECT_SIG, DEFECT_TEXT)
 
-    def consts(self, combine):
+    def consts(self, combine, exact=False):
         w = self.world
         kinds = FD((n, k) for n, k in w.kinds.items())
         root = tuple(n for n in w.names if n not in w.group) + (('g',) if w.group else ())
         return dict(Kinds=kinds, Root=root, Group=tuple(w.group),
                     GeomTab=FD((k, g.tla()) for k, g in self.geoms.items()),
                     GridBox=tuple(w.grid['bbox']), GridRes=tuple(w.grid['res']), TileSize=tuple(w.grid['tile_size']),
-                    CombineChoices=(frozenset([True, False]) if combine is None else frozenset([bool(combine)])), Requests=frozenset(self.requests), AuthKinds=frozenset(self.auth),
+                    CombineChoices=(frozenset([True, False]) if combine is None else frozenset([bool(combine)])),
+                    Ext=tuple(w.ext) if w.ext else (),
+                    ExactChoices=(frozenset([True, False]) if exact is None else frozenset([bool(exact)])), Requests=frozenset(self.requests), AuthKinds=frozenset(self.auth),
                     PermOpts=frozenset(FD(map=m, featureinfo=f, tile=t) for m, f, t in self.perms),
                     LimIds=frozenset(self.lims), GlobIds=frozenset(self.globs), EntryNames=frozenset(self.entries))
 
@@ -515,9 +578,9 @@ def world_root(w):
     return tuple(n for n in w.names if n not in w.group) + (('g',) if w.group else ())
 
 
-def run_model(ctx, inst, combine, invariants, emit, label, timeout=1500):
+def run_model(ctx, inst, combine, invariants, emit, label, timeout=1500, exact=False):
     d = ctx.sub('mc-%s-%s' % (inst.name, label))
-    mp, cp = tlc.write_mc(d, 'Auth', 'MC_Auth', inst.consts(combine), invariants=list(invariants) + (['Emit'] if emit else []))
+    mp, cp = tlc.write_mc(d, 'Auth', 'MC_Auth', inst.consts(combine, exact), invariants=list(invariants) + (['Emit'] if emit else []))
     r = tlc.run(mp, cp, d, workers=TLC_WORKERS, timeout=timeout, coverage=False)
     ctx.log('TLC %s/%s: %d states, %s  [%.0fs]' % (inst.name, label, r.distinct,
                                                  'violates ' + r.violated if r.violated else ('ok' if r.ok else r.error), r.wall))
@@ -580,6 +643,28 @@ S_COARSE = (70, 490, 20, 20, 5, 4)
 S_WIDE = (40, 500, 10, 10, 12, 6)
 
 
+# the world with an SRS extent: edges that are no multiples of the pixel sizes in use, inside the tile grid (cached layers have
+# content everywhere in the extent).  Boxes around its lower left corner (37, 43), its upper right corner (907, 431)
+EXT = (37, 43, 907, 431)
+X_IN = (60, 60, 10, 10, 6, 5)                 # inside
+X_L = (0, 60, 10, 10, 8, 5)                   # across the left edge: columns 3 .. 7 are pasted (37 / 10 = 3.7)
+X_LB = (-2, 2, 20, 20, 8, 5)                  # left and lower edge: columns 1 .. 7, rows 0 .. 1 (39 / 20 = 1.95, 59 / 20 = 2.95)
+X_ALL = (-100, -60, 100, 100, 12, 6)          # all four edges: columns 1 .. 9, rows 1 .. 3
+X_OUT = (1000, 100, 10, 10, 4, 4)             # outside: blank
+X_RT = (860, 390, 13, 7, 6, 8)                # right and upper edge, pixels not square: columns 0 .. 2, rows 2 .. 7
+X_TOUCH = (907, 100, 10, 10, 4, 4)            # touches the right edge from outside: blank
+X_B = (100, 42, 33, 33, 4, 5)                 # lower edge: rows 0 .. 3 (164 / 33 = 4.97 rows inside are squeezed into 4)
+X_LR = (-50, 100, 125, 25, 9, 4)              # left and right edge
+EXT_CATALOGUE = {
+    'Xright': Geom([(50, -300, 1500, 940)]),                            # border inside the extent, 13 units from its left edge
+    'Xlow': Geom([(-300, -300, 1500, 53)]),                             # border inside the extent, 10 units above its lower edge
+    'Xcross': Geom([(10, 50, 70, 90)]),                                 # across the left edge of the extent
+    'Xout': Geom([(-50, -50, 30, 40)]),                                 # outside the extent, inside some requests
+    'Xring': Geom([(45, 50, 140, 100)], holes=[(70, 60, 100, 80)]),     # inside the extent, with a hole
+    'Xbig': Geom([(-200, -200, 1400, 800)]),                            # contains the extent
+}
+
+
 def instances(tier):
     thorough = tier == 'thorough'
     out = []
@@ -636,6 +721,19 @@ def instances(tier):
     reqs += [mkreq('tms', lay='g', tile=(2, 2, 2)), mkreq('wmts.fi.rest', lay='g', tile=(2, 2, 2), pos=(1, 1)), mkreq('tms.caps')]
     out.append(Instance('group-with-sources', w5, reqs, ['full', 'partial'], [(True, True, True)] + ([(True, False, False), (False, False, True)] if thorough else []),
                         ['none', 'Goff'], ['none', 'Gtop'], ['a', 'b', 'g'], variants=('found', 'repaired')))
+    # E6: the WMS service declares an extent for the request SRS (bbox_srs); GetMap / GetFeatureInfo boxes inside the extent,
+    # across one, two, all four of its edges, outside (touching); areas with borders inside, outside and across the extent
+    w6 = W.World({'a': 'wmsT', 'b': 'cache'}, group=(), ext=EXT)
+    boxes = [X_IN, X_L, X_LB, X_ALL, X_OUT, X_RT, X_B] + ([X_TOUCH, X_LR] if thorough else [])
+    seqs = [('a',), ('b',), ('a', 'b')] + ([('b', 'a')] if thorough else [])
+    reqs = [mkreq('wms.map', s_, box=bx) for s_ in seqs for bx in boxes]
+    reqs += [mkreq('wms.fi', s_, box=bx, pos=p) for s_ in (('a',), ('a', 'b')) for bx, p in ((X_IN, (1, 1)), (X_L, (1, 2)), (X_L, (6, 2)), (X_LB, (1, 1)),
+                                                                                        (X_LB, (4, 1)), (X_OUT, (1, 1)))]
+    perms = [(True, True, False)] + ([(True, False, False), (False, True, False)] if thorough else [])
+    out.append(Instance('srs-extent', w6, reqs, ['full', 'none', 'unauthenticated', 'partial'], perms,
+                        ['none', 'Xright', 'Xlow'] + (['Xcross', 'Xring'] if thorough else []),
+                        ['none', 'Xout', 'Xring'] + (['Xlow', 'Xbig'] if thorough else []), ['a', 'b'],
+                        geoms=EXT_CATALOGUE, variants=('found', 'exact')))
     return out
 
 
@@ -662,49 +760,78 @@ class Apps(object):
 
 
 def replay_table(ctx, apps, inst, tables, label):
-    """tables: {'found': table[, 'repaired': table]}.  Every case is executed on the real application; the observation
-    must be allowed by the model of the code as found or (instances with tile services) by the model with both limits
-    applied.  A response that only the model of the code as found allows, and on which that model violates the property, is
-    a violation of the property by the real code."""
+    """tables: {'found': table[, 'repaired' | 'exact': table]}.  Every case is executed on the real application; the
+    observation must be allowed by the model of the code as found or by the other model of the instance (tile services: both
+    limits applied; SRS extent: sub-image not displaced).  A response that only the model of the code as found allows, and
+    on which that model violates the property, is a violation of the property by the real code.  In a world with an SRS
+    extent every third WMS request names the alias code of the SRS and every fourth GetMap is also asked for as jpeg."""
     world = inst.world
     app = apps.get(world)
     table = tables['found']
-    other = tables.get('repaired')
+    other = tables.get(inst.other) if inst.other else None
     nbad = ndefect = 0
+    runs, pending = [], []
     for n, key in enumerate(sorted(table)):
+        fmt = 'png+alias' if world.ext and n % 3 == 2 else 'png'
+        runs.append((n, key, fmt))
+        if world.ext and table[key][0]['f'] == 'wms.map' and n % 4 == 1:
+            runs.append((n, key, 'jpeg'))
+    for n, key, fmt in runs:
         req, cb, out, pruned, prop_ok, path = table[key]
         variant = n % len(FORMS)
-        obs = observe(world, app, req, cb, inst.geoms, variant)
+        obs = observe(world, app, req, cb, inst.geoms, variant, fmt)
         ctx.cov['replayed_behaviours'] += 1
         ctx.cov['replayed_steps'] += len(path)
-        ctx.count(('case', inst.name, key, obs['status'], json.dumps(obs['px']), tuple(obs['ups']), tuple(obs['infos']), tuple(obs['listing'])))
+        ctx.count(('case', inst.name, key, fmt, obs['status'], json.dumps(obs['px']), tuple(obs['ups']), tuple(obs['infos']), tuple(obs['listing'])))
         bad = compare(out, obs)
         bad_other = compare(other[key][2], obs) if other else bad
         case = {'instance': inst.name, 'world': world_json(world), 'geoms': {k: g.json() for k, g in inst.geoms.items()},
-                'req': tla.jsonable(req), 'cb': tla.jsonable(cb), 'variant': variant, 'fmt': 'png', 'url': obs['url']}
+                'req': tla.jsonable(req), 'cb': tla.jsonable(cb), 'variant': variant, 'fmt': fmt, 'url': obs['url']}
         if bad and bad_other:
             nbad += 1
             what, detail = bad[0]
             ctx.violation({'kind': 'conformance', 'feature': req['f'], 'what': what, 'detail': re.sub(r' \(first at.*', '', detail)},
                           '%s: %s %s under callback %s: %s' % (inst.name, req['f'], describe(req), describe_cb(cb), '; '.join(d for _, d in bad)),
                           case)
+        elif not bad and bad_other and not prop_ok and inst.other == 'exact':
+            pending.append((req, cb, obs, case))          # decided by TLC on the observation, below
         elif not bad and bad_other and not prop_ok:
             ndefect += 1
-            ctx.violation(dict(DEFECT_SIG, service=family(req['f'])),
+            ctx.violation(dict(inst.defect_sig, service=family(req['f'])),
                           '%s %s under callback %s: the response is the one Auth.tla (code as found) predicts and it violates the property: '
-                          'the request-wide limited_to is not applied when the layer has a limited_to of its own (pixels / feature info '
-                          'outside the request-wide area are served)' % (req['f'], describe(req), describe_cb(cb)), case)
-    ctx.log('%s/%s: %d cases executed on the real application, %d not allowed by the spec, %d reproduce a property violation of the '
-            'model of the code as found' % (inst.name, label, len(table), nbad, ndefect))
-    return nbad
+                          '%s' % (req['f'], describe(req), describe_cb(cb), inst.defect_text), case)
+    if pending:
+        # SRS extent: responses that the model of the code as found predicts, that the reference model does not allow and on
+        # which the model of the code as found violates the property: TLC evaluates the property on the observations
+        r, acc_found, acc_comb, bad = validate_events(ctx, world, inst.geoms, [event_json(world, q, c, o, inst.geoms) for q, c, o, _ in pending],
+                                                      'defects-' + inst.name)
+        ctx.cov['traces_validated_against_impl'] += len(pending)
+        for i, (req, cb, obs, case) in enumerate(pending):
+            if (i + 1) not in bad:
+                continue             # differs from the reference within the tolerance of the property
+            ndefect += 1
+            if (i + 1) in r.bad_outside and (i + 1) not in r.bad_inside and (i + 1) in acc_found:
+                ctx.violation(dict(inst.defect_sig, service=family(req['f']), what='content-outside'),
+                              '%s %s under callback %s: the response is the one Auth.tla (code as found) predicts and TLC finds ClippedOutside '
+                              'violated by it: %s' % (req['f'], describe(req), describe_cb(cb), inst.defect_text), case)
+            else:
+                ctx.violation({'kind': 'property', 'feature': req['f'], 'what': 'observation-violates-property', 'world': 'srs-extent'},
+                              'TLC: the observation violates the property: %s %s under callback %s -> px %s' % (
+                                  req['f'], describe(req), describe_cb(cb), obs['px']), case)
+        ctx.log('%s: %d responses differ from the reference model as the model of the code as found predicts; TLC finds the property '
+                'violated by %d of them' % (inst.name, len(pending), ndefect))
+    ctx.log('%s/%s: %d cases (%d requests) executed on the real application, %d not allowed by the spec, %d reproduce a property '
+            'violation of the model of the code as found' % (inst.name, label, len(table), len(runs), nbad, ndefect))
+    return nbad, ndefect
 
 
 def world_json(w):
-    return {'kinds': {n: w.kinds[n] for n in w.names}, 'group': list(w.group), 'group_this': w.group_this, 'frame': w.frame}
+    return {'kinds': {n: w.kinds[n] for n in w.names}, 'group': list(w.group), 'group_this': w.group_this, 'frame': w.frame,
+            'ext': list(w.ext) if w.ext else None}
 
 
 def world_from_json(d):
-    return W.World(d['kinds'], group=tuple(d['group']), group_this=d.get('group_this'), frame=d.get('frame'))
+    return W.World(d['kinds'], group=tuple(d['group']), group_this=d.get('group_this'), frame=d.get('frame'), ext=d.get('ext'))
 
 
 def describe(req):
@@ -730,8 +857,16 @@ def describe_cb(cb):
 # ---------------------------------------------------------------------------------------------------------------
 # code -> spec
 # ---------------------------------------------------------------------------------------------------------------
-def random_geom(rng, focus):
-    """random rectilinear area near the box `focus` = (x0, y0, x1, y1)"""
+def _clamped(r):
+    """the rectangle cut to the inside of W.WINDOW (None when nothing is left)"""
+    wx0, wy0, wx1, wy1 = W.WINDOW
+    c = (max(r[0], wx0 + 1), max(r[1], wy0 + 1), min(r[2], wx1 - 1), min(r[3], wy1 - 1))
+    return c if c[0] < c[2] and c[1] < c[3] else None
+
+
+def random_geom(rng, focus, clamp=False):
+    """random rectilinear area near the box `focus` = (x0, y0, x1, y1); clamp: rectangles are cut to the window of the
+    geometries (worlds with an SRS extent: requests may reach far beyond the tile grid)"""
     x0, y0, x1, y1 = focus
     span = max(x1 - x0, y1 - y0, 40)
     k = rng.random()
@@ -758,11 +893,102 @@ def random_geom(rng, focus):
             hx0 = rng.randint(r[0] + 1, r[2] - 3)
             hy0 = rng.randint(r[1] + 1, r[3] - 3)
             holes.append((hx0, hy0, rng.randint(hx0 + 1, r[2] - 1), rng.randint(hy0 + 1, r[3] - 1)))
+    if clamp:
+        rects = [c for c in map(_clamped, rects) if c] or [(100, 100, 300, 300)]
+        holes = [c for c in map(_clamped, holes) if c]
     try:
         return Geom(rects, holes)
     except AssertionError:
         return Geom([rects[0]])
 
+
+def random_ext_box(rng, ext, within, wmax=10, hmax=8):
+    """a request box (x0, y0, rx, ry, w, h) in a chosen relation to the SRS extent, inside the rectangle `within`:
+    per axis inside / across the low edge / across the high edge / across both / outside (or touching from outside).
+    -> (box, relation 'inside' | 'blank' | 'clipped', number of extent edges crossed)"""
+    for _ in range(2000):
+        wpx, hpx = rng.randint(1, wmax), rng.randint(1, hmax)
+        k = rng.random()
+        if k < 0.18:
+            modes = ['in', 'in']
+        elif k < 0.34:
+            modes = [rng.choice(['out-lo', 'out-hi', 'touch-lo', 'touch-hi']), rng.choice(['in', 'lo', 'hi', 'out-hi'])]
+            rng.shuffle(modes)
+        elif k < 0.60:
+            modes = [rng.choice(['lo', 'hi']), 'in']
+            rng.shuffle(modes)
+        elif k < 0.80:
+            modes = [rng.choice(['lo', 'hi']), rng.choice(['lo', 'hi'])]
+        elif k < 0.88:
+            modes = ['both', rng.choice(['in', 'lo', 'hi'])]
+            rng.shuffle(modes)
+        else:
+            modes = ['both', 'both']
+        rx = rng.choice([10, 20, 40, 10, 7, 13, 25, 33])
+        ry = rx if rng.random() < 0.75 else rng.choice([10, 20, 9, 15, 7])
+        res, org = [rx, ry], [0, 0]
+        ok = True
+        for ax, (mode, n) in enumerate(zip(modes, (wpx, hpx))):
+            lo, hi = ext[ax], ext[ax + 2]
+            if mode == 'both':
+                res[ax] = (hi - lo) // n + rng.randint(1, 40)
+            size = n * res[ax]
+            if mode == 'in':
+                rg = (lo, hi - size)
+            elif mode == 'lo':
+                rg = (lo - size + 1, min(lo - 1, hi - size))
+            elif mode == 'hi':
+                rg = (max(hi - size + 1, lo), hi - 1)
+            elif mode == 'both':
+                rg = (hi - size + 1, lo - 1)
+            elif mode == 'out-lo':
+                rg = (lo - size - 150, lo - size - 1)
+            elif mode == 'out-hi':
+                rg = (hi + 1, hi + 150)
+            elif mode == 'touch-lo':
+                rg = (lo - size, lo - size)
+            else:
+                rg = (hi, hi)
+            rg = (max(rg[0], within[ax]), min(rg[1], within[ax + 2] - size))
+            if rg[0] > rg[1]:
+                ok = False
+                break
+            org[ax] = rng.randint(rg[0], rg[1])
+        if not ok:
+            continue
+        box = (org[0], org[1], res[0], res[1], wpx, hpx)
+        rel, sub = ext_relation(_ExtOnly(ext), box)
+        if rel == 'clipped' and (sub[1] <= sub[0] or sub[3] <= sub[2]):
+            continue          # the part inside the extent is thinner than a pixel row / column (sub-query of size 0: 500)
+        x1, y1 = org[0] + wpx * res[0], org[1] + hpx * res[1]
+        if rel == 'clipped':
+            srx = (min(x1, ext[2]) - max(org[0], ext[0])) / float(sub[1] - sub[0])
+            sry = (min(y1, ext[3]) - max(org[1], ext[1])) / float(sub[3] - sub[2])
+        else:
+            srx, sry = res
+        if min(srx, sry) > MAX_RES:
+            continue          # cached layers answer blank beyond max_shrink_factor (4) x the coarsest grid resolution (40)
+        edges = (org[0] < ext[0] < x1) + (org[0] < ext[2] < x1) + (org[1] < ext[1] < y1) + (org[1] < ext[3] < y1)
+        return box, rel, (edges if rel == 'clipped' else 0)
+    raise tlc.MachineryError('no request box generated for the SRS extent %r' % (ext,))
+
+
+MAX_RES = 150
+
+
+class _ExtOnly(object):
+    def __init__(self, ext):
+        self.ext = ext
+
+
+# worlds whose WMS service declares an extent for the request SRS (and for its alias code)
+EXT_POOL = [
+    {'kinds': {'a': 'wmsT', 'b': 'cache', 'c': 'cachej'}, 'group': ['b', 'c'], 'group_this': None, 'ext': list(EXT)},
+    {'kinds': {'a': 'wmsT', 'b': 'wmsO', 'c': 'cache'}, 'group': [], 'group_this': None, 'ext': [205, 111, 1069, 599]},
+    {'kinds': {'a': 'cache', 'b': 'wmsT', 'c': 'wmsT'}, 'group': ['b', 'c'], 'group_this': None, 'ext': [11, 19, 1271, 629]},
+]
+# requests of these worlds stay inside this rectangle (the "half planes" of random_geom end at -300 / 1500 / 940)
+EXT_REQ_WINDOW = (-280, -280, 1480, 920)
 
 WORLD_POOL = [
     {'kinds': {'a': 'wmsT', 'b': 'cache', 'c': 'cachej'}, 'group': ['b', 'c'], 'group_this': None},
@@ -782,16 +1008,26 @@ def random_event(rng, world, geoms):
     if tl:
         feats += ['tms'] * 3 + ['kml', 'wmts.kvp', 'wmts.rest', 'wmts.fi.kvp', 'wmts.fi.rest', 'wmts.fi.rest', 'tms.layer', 'kml.doc',
                   'tms.caps', 'wmts.caps']
+    if world.ext:
+        # (GetCapabilities is left to the other worlds: with bbox_srs the document fails with 500 when a permitted layer's
+        # limited_to area misses the SRS extent - Capabilities.layer_srs_bbox, intersection None; no part of C10)
+        feats = [x for x in feats if x != 'wms.caps'][::3] + ['wms.map'] * 16 + ['wms.fi'] * 5
     f = rng.choice(feats)
     fmt = 'png'
     gb, ts = W.GRID['bbox'], W.GRID['tile_size']
     if f in ('wms.map', 'wms.fi'):
-        rx = rng.choice([10, 20, 40, 10, 7, 13, 25])
-        ry = rx if rng.random() < 0.8 else rng.choice([10, 20, 9, 15])
-        wpx, hpx = rng.randint(1, 10), rng.randint(1, 8)
-        x0 = rng.randint(gb[0], gb[2] - wpx * rx)
-        y0 = rng.randint(gb[1], gb[3] - hpx * ry)
-        box = (x0, y0, rx, ry, wpx, hpx)
+        if world.ext:
+            # GetMap may reach beyond the tile grid (only the part inside the extent is rendered); GetFeatureInfo ignores the
+            # extent: its box stays inside the grid like in the other worlds
+            box, rel, edges = random_ext_box(rng, world.ext, EXT_REQ_WINDOW if f == 'wms.map' else gb)
+            x0, y0, rx, ry, wpx, hpx = box
+        else:
+            rx = rng.choice([10, 20, 40, 10, 7, 13, 25])
+            ry = rx if rng.random() < 0.8 else rng.choice([10, 20, 9, 15])
+            wpx, hpx = rng.randint(1, 10), rng.randint(1, 8)
+            x0 = rng.randint(gb[0], gb[2] - wpx * rx)
+            y0 = rng.randint(gb[1], gb[3] - hpx * ry)
+            box = (x0, y0, rx, ry, wpx, hpx)
         ls = [rng.choice(names) for _ in range(rng.choice([1, 1, 2, 2, 3]))]
         ls = [n for i, n in enumerate(ls) if n not in ls[:i]]
         if f == 'wms.map':
@@ -802,6 +1038,13 @@ def random_event(rng, world, geoms):
             expl = ls if rng.random() < 0.8 else [rng.choice(names)]
             req = mkreq(f, ls, expl=expl, box=box, pos=(rng.randint(0, wpx - 1), rng.randint(0, hpx - 1)))
         focus = (x0, y0, x0 + wpx * rx, y0 + hpx * ry)
+        if world.ext:
+            if rng.random() < 0.25:
+                fmt += '+alias'
+            if rel == 'clipped' and rng.random() < 0.6:
+                # the borders of the areas near the visible part of the request (else: anywhere in the request box)
+                e = world.ext
+                focus = (max(x0, e[0]) - rx, max(y0, e[1]) - ry, min(focus[2], e[2]) + rx, min(focus[3], e[3]) + ry)
     elif f in ('wms.caps', 'tms.caps', 'wmts.caps'):
         req = mkreq(f)
         focus = (gb[2] - 100, gb[1], gb[2] + 60, gb[1] + 200) if rng.random() < 0.5 else (100, 100, 300, 300)
@@ -817,17 +1060,18 @@ def random_event(rng, world, geoms):
 
     def new_geom():
         gid = 'R%d' % len(geoms)
-        geoms[gid] = random_geom(rng, focus)
+        geoms[gid] = random_geom(rng, focus, clamp=bool(world.ext))
         return gid
     k = rng.random()
     if k < 0.08:
         cb = FD(authorized=rng.choice(['full', 'none', 'unauthenticated']), layers=FD(), glob='none')
     else:
         layers = {}
+        p_absent, p_flag = (0.1, 0.9) if world.ext else (0.2, 0.75)        # (fewer refusals where the SRS extent is the subject)
         for n in names:
-            if rng.random() < 0.2:
+            if rng.random() < p_absent:
                 continue
-            e = dict(map=rng.random() < 0.75, featureinfo=rng.random() < 0.75, tile=rng.random() < 0.75, lim='none')
+            e = dict(map=rng.random() < p_flag, featureinfo=rng.random() < p_flag, tile=rng.random() < p_flag, lim='none')
             if rng.random() < 0.45:
                 e['lim'] = new_geom()
             layers[n] = FD(e)
@@ -884,27 +1128,76 @@ def event_json(world, req, cb, obs, geoms, side=None):
 
 def validate_events(ctx, world, geoms, events, name):
     """-> (TLC result, ids (1-based) accepted by the model of the code as found, ids accepted by the model with both limits
-    applied, ids whose observation violates the property)"""
+    applied, ids whose observation violates the property); result.acc_exact: ids accepted by the reference model whose
+    sub-image is not displaced (worlds with an SRS extent, GetMap reaching beyond the extent)"""
     d = ctx.sub(name)
     tf = os.path.join(d, 'batch.json')
     with open(tf, 'w') as f:
         json.dump(events, f)
     inst = Instance(name, world, [], [], [], [], [], [], geoms={'Z': CATALOGUE['Gfar']})
-    mp, cp = tlc.write_mc(d, 'Trace_Auth', 'MC_Trace', inst.consts(None), spec='TraceSpec', post='TraceAccepted',
-                          invariants=['TypeOK'])
+    mp, cp = tlc.write_mc(d, 'Trace_Auth', 'MC_Trace', inst.consts(None, None if world.ext else False), spec='TraceSpec',
+                          post='TraceAccepted', invariants=['TypeOK'])
     r = tlc.run(mp, cp, d, workers=1, coverage=False, env={'TRACE_FILE': tf}, timeout=3000)
     pa, pc_, pb = tlc.find_prints(r.out, 'accepted'), tlc.find_prints(r.out, 'accepted_combined'), tlc.find_prints(r.out, 'obsbad')
     po, pi = tlc.find_prints(r.out, 'obsbad_outside'), tlc.find_prints(r.out, 'obsbad_inside')
-    if not pa or not pb or not pc_ or not po or not pi:
+    pe = tlc.find_prints(r.out, 'accepted_exact')
+    if not pa or not pb or not pc_ or not po or not pi or not pe:
         raise tlc.MachineryError('trace validation: no verdict from TLC\n' + r.out[-2500:])
     r.bad_outside, r.bad_inside = {int(x) for x in po[-1][1]}, {int(x) for x in pi[-1][1]}
+    r.acc_exact = {int(x) for x in pe[-1][1]}
     return r, {int(x) for x in pa[-1][1]}, {int(x) for x in pc_[-1][1]}, {int(x) for x in pb[-1][1]}
 
 
-def random_traces(ctx, apps, nworlds, nevents):
+def ext_stats(world, req, cb, obs, fmt, stats):
+    """vacuity counters of the worlds with an SRS extent (they decide nothing)"""
+    f = req['f']
+    if f not in ('wms.map', 'wms.fi'):
+        return
+    rel, sub = ext_relation(world, req['box'])
+    if f == 'wms.fi':
+        stats['featureinfo:box-%s' % rel] += 1
+        if obs['status'] == 200 and obs['infos']:
+            stats['featureinfo:answered:box-%s' % rel] += 1
+        return
+    x0, y0, rx, ry, w, h = req['box']
+    e = world.ext
+    edges = (x0 < e[0] < x0 + w * rx) + (x0 < e[2] < x0 + w * rx) + (y0 < e[1] < y0 + h * ry) + (y0 < e[3] < y0 + h * ry)
+    stats['map:%s' % rel] += 1
+    if rel == 'blank':
+        if obs['status'] == 200 and obs['px'] and all(c == 1 for row in obs['px'] for c in row) and not obs['ups']:
+            stats['map:blank-answer'] += 1
+            stats['map:blank-answer:%s' % ('partial' if cb['authorized'] == 'partial' else cb['authorized'])] += 1
+        return
+    if rel != 'clipped' or obs['status'] != 200:
+        return
+    stats['map:clipped:%d-edges' % edges] += 1
+    if fmt.startswith('jpeg'):
+        stats['map:clipped:jpeg'] += 1
+    if fmt.endswith('+alias'):
+        stats['map:clipped:alias-code'] += 1
+    if cb['authorized'] != 'partial':
+        return
+    lims = {cb['layers'][n]['lim'] for n in obs['ups'] if n in cb['layers']} - {'none'}
+    if not lims and cb['glob'] == 'none':
+        return
+    stats['map:clipped:limit-in-force'] += 1
+    if lims:
+        stats['map:clipped:layer-limit'] += 1
+    if cb['glob'] != 'none':
+        stats['map:clipped:request-limit'] += 1
+    l, r_, t, bt = sub
+    inner = [c for j, row in enumerate(obs['px']) for i, c in enumerate(row) if l <= i < r_ and t <= j < bt]
+    if any(c == 1 for c in inner) and any(c not in (0, 1) for c in inner):
+        stats['map:clipped:limit-border-in-the-pasted-part'] += 1
+
+
+def random_traces(ctx, apps, nworlds, nevents, pool=None, stats=None):
+    """random requests recorded from the real application and validated by TLC; pool: WORLD_POOL (default) or EXT_POOL"""
     total = rejected = obsbad = 0
+    pool = pool or WORLD_POOL
+    label = 'ext' if pool is EXT_POOL else ''
     for wi in range(nworlds):
-        wd = WORLD_POOL[wi % len(WORLD_POOL)]
+        wd = pool[wi % len(pool)]
         world = world_from_json(wd)
         app = apps.get(world)
         geoms, events, meta = {}, [], []
@@ -917,22 +1210,41 @@ def random_traces(ctx, apps, nworlds, nevents):
                               'random %s %s: %s' % (req['f'], describe(req), '; '.join(obs['problems'])[:300]), None)
             events.append(event_json(world, req, cb, obs, geoms))
             meta.append((req, cb, variant, fmt, obs))
-            ctx.count(('event', wi, k, req['f'], obs['status'], json.dumps(obs['px']), tuple(obs['ups'])))
-        r, acc_found, acc_comb, bad = validate_events(ctx, world, geoms, events, 'trace-%d' % wi)
+            if world.ext and stats is not None:
+                ext_stats(world, req, cb, obs, fmt, stats)
+            ctx.count((label + 'event', wi, k, req['f'], obs['status'], json.dumps(obs['px']), tuple(obs['ups'])))
+        r, acc_found, acc_comb, bad = validate_events(ctx, world, geoms, events, '%strace-%d' % (label, wi))
         ctx.cov['traces_validated_against_impl'] += len(events)
         ctx.cov['states'] += r.distinct
         ctx.cov['transitions'] += r.generated
         total += len(events)
-        if wi == 0:
+        if wi == 0 and not world.ext:
             ctx.sample({'kind': 'recorded request validated by Trace_Auth', 'event': {k: v for k, v in events[0].items() if k != 'geoms'}})
+        if wi == 0 and world.ext:
+            some = next((e for e, m in zip(events, meta) if m[0]['f'] == 'wms.map' and ext_relation(world, m[0]['box'])[0] == 'clipped'
+                         and m[1]['authorized'] == 'partial' and m[4]['status'] == 200 and len({c for row in m[4]['px'] for c in row}) > 1),
+                        events[0])
+            ctx.sample({'kind': 'recorded GetMap reaching beyond the SRS extent %s, validated by Trace_Auth' % list(world.ext),
+                        'event': {k: v for k, v in some.items() if k != 'geoms'}})
         for i, (req, cb, variant, fmt, obs) in enumerate(meta):
             case = {'world': wd, 'geoms': {g: geoms[g].json() for g in sorted({cb['glob']} | {e['lim'] for e in cb['layers'].values()}) if g != 'none'},
                     'req': tla.jsonable(req), 'cb': tla.jsonable(cb), 'variant': variant, 'fmt': fmt, 'url': obs['url']}
             both = (req['f'] in TILE_WITH_COVERAGE and cb['authorized'] == 'partial' and cb['glob'] != 'none'
                     and req['lay'] in cb['layers'] and cb['layers'][req['lay']]['lim'] != 'none')
+            accepted = (i + 1) in acc_found or (i + 1) in acc_comb or (i + 1) in r.acc_exact
+            if world.ext and stats is not None and req['f'] == 'wms.map' and ext_relation(world, req['box'])[0] == 'clipped':
+                stats['map:clipped:accepted-by-' + ('both-models' if (i + 1) in acc_found and (i + 1) in r.acc_exact else
+                                                    'the-model-of-the-code-as-found-only' if (i + 1) in acc_found else
+                                                    'the-reference-model-only' if (i + 1) in r.acc_exact else 'neither')] += 1
             if (i + 1) in bad:
                 obsbad += 1
-                if both and (i + 1) in acc_found and (i + 1) not in acc_comb:
+                if (world.ext and req['f'] == 'wms.map' and ext_relation(world, req['box'])[0] == 'clipped' and (i + 1) in acc_found
+                        and (i + 1) not in r.acc_exact and (i + 1) in r.bad_outside and (i + 1) not in r.bad_inside):
+                    ctx.violation(dict(EXT_SIG, service='wms', what='content-outside'),
+                                  'recorded %s %s under callback %s: TLC finds ClippedOutside violated by the observation, which is what Auth.tla '
+                                  '(code as found) predicts and the reference model does not allow: %s; px %s' % (
+                                      req['f'], describe(req), describe_cb(cb), EXT_TEXT, obs['px']), case)
+                elif both and (i + 1) in acc_found and (i + 1) not in acc_comb:
                     ctx.violation(dict(DEFECT_SIG, service=family(req['f'])),
                                   'recorded %s %s under callback %s: the observation violates the property (request-wide limited_to '
                                   'not applied) and is what Auth.tla (code as found) predicts' % (req['f'], describe(req), describe_cb(cb)), case)
@@ -941,13 +1253,14 @@ def random_traces(ctx, apps, nworlds, nevents):
                                   'TLC: the recorded observation violates the property: %s %s under callback %s -> status %s ups %s infos %s '
                                   'listing %s px %s' % (req['f'], describe(req), describe_cb(cb), obs['status'], obs['ups'], obs['infos'],
                                                         obs['listing'], obs['px']), case)
-            if (i + 1) not in acc_found and (i + 1) not in acc_comb:
+            if not accepted:
                 rejected += 1
                 ctx.violation({'kind': 'trace-rejected', 'feature': req['f'], 'status': obs['status']},
                               'recorded response is not a terminal state of Auth.tla: %s %s under callback %s -> status %s ups %s infos %s '
                               'listing %s px %s' % (req['f'], describe(req), describe_cb(cb), obs['status'], obs['ups'], obs['infos'],
                                                     obs['listing'], obs['px']), case)
-    ctx.log('validated %d recorded requests with TLC (%d rejected, %d violate the property)' % (total, rejected, obsbad))
+    ctx.log('%svalidated %d recorded requests with TLC (%d rejected, %d violate the property)' % (
+        'worlds with an SRS extent: ' if label else '', total, rejected, obsbad))
 
 
 
@@ -1305,11 +1618,50 @@ def oblique_traces(ctx, apps, nworlds, nevents, stats):
 TILE_WITH_COVERAGE = ('tms', 'kml', 'wmts.kvp', 'wmts.rest', 'wmts.fi.kvp', 'wmts.fi.rest')
 
 
+def ext_table_guard(inst, table, stats):
+    """the exhaustive instance with an SRS extent contains what it is meant to contain (non-vacuity): GetMap reaching beyond the
+    extent under a layer / request limit with dark, content and band pixels in the pasted part, blank answers, cases where the
+    model of the code as found violates the property"""
+    seen = collections.Counter()
+    for req, cb, out, pruned, prop, path in table.values():
+        if req['f'] != 'wms.map':
+            continue
+        rel, sub = ext_relation(inst.world, req['box'])
+        if rel == 'blank':
+            seen['blank'] += 1
+            if 'OutsideExtent' not in path or out['status'] != 200 or out['ups_may']:
+                raise tlc.MachineryError('%s: a GetMap outside the SRS extent is not answered by OutsideExtent: %r' % (inst.name, path))
+        if rel != 'clipped' or out['status'] != 200 or cb['authorized'] != 'partial':
+            continue
+        lims = {e['lim'] for e in cb['layers'].values()} - {'none'}
+        if not lims and cb['glob'] == 'none':
+            continue
+        seen['clipped-with-limit'] += 1
+        seen['clipped-with-layer-limit'] += bool(lims)
+        seen['clipped-with-request-limit'] += cb['glob'] != 'none'
+        l, r_, t, bt = sub
+        inner = [m for j, row in enumerate(out['px']) for i, m in enumerate(row) if l <= i < r_ and t <= j < bt]
+        outer = [m for j, row in enumerate(out['px']) for i, m in enumerate(row) if not (l <= i < r_ and t <= j < bt)]
+        if any(m != 1 for m in outer) or not outer:
+            raise tlc.MachineryError('%s: content outside the pasted rectangle in the table of the model: %r' % (inst.name, req))
+        seen['pasted:dark'] += any(m == 1 for m in inner)
+        seen['pasted:content'] += any(m in (2, 4, 8, 16) for m in inner)
+        seen['pasted:band'] += any(m not in (1, 2, 4, 8, 16) for m in inner)
+        seen['model-of-the-code-violates-the-property'] += not prop
+    for need, least in (('blank', 4), ('clipped-with-limit', 100), ('clipped-with-layer-limit', 50), ('clipped-with-request-limit', 50),
+                        ('pasted:dark', 20), ('pasted:content', 20), ('pasted:band', 20), ('model-of-the-code-violates-the-property', 5)):
+        if seen[need] < least:
+            raise tlc.MachineryError('%s: the situation %r occurs only %d times in the enumerated table (at least %d expected): vacuous check' % (
+                inst.name, need, seen[need], least))
+    for k, v in seen.items():
+        stats['exhaustive:' + k] = v
+
+
 # ---------------------------------------------------------------------------------------------------------------
-def attack(ctx, apps, inst, tables):
+def attack(ctx, apps, inst, tables, invs=('ClippedOutside', 'InfoGateOK')):
     """TLC counterexamples of the model of the code as found (ClippedOutside / InfoGateOK), replayed on the real
     application"""
-    for inv in ('ClippedOutside', 'InfoGateOK'):
+    for inv in invs:
         r = run_model(ctx, inst, False, [inv], False, 'attack-' + inv, timeout=600)
         if r.violated != inv or not r.trace:
             raise tlc.MachineryError('the model of the code as found satisfies %s - vacuous? %r' % (inv, r))
@@ -1319,16 +1671,17 @@ def attack(ctx, apps, inst, tables):
         ctx.cov['replayed_behaviours'] += 1
         ctx.cov['replayed_steps'] += len(r.trace)
         ctx.count(('attack', inv))
-        rep = tables['repaired'][case_key(req, cb)]
+        rep = tables[inst.other][case_key(req, cb)]
         reproduced = not compare(out, obs) and bool(compare(rep[2], obs))
         ctx.log('model (code as found) violates %s on %s %s under %s: %s on the real application' % (
             inv, req['f'], describe(req), describe_cb(cb),
             'REPRODUCED' if reproduced else 'not reproduced' if compare(out, obs) else 'not decisive (within the one-pixel band)'))
         if reproduced:
-            ctx.violation(dict(DEFECT_SIG, service=family(req['f'])),
+            ctx.violation(dict(inst.defect_sig, service=family(req['f']), **({'what': 'content-outside'} if inst.other == 'exact' else {})),
                           'counterexample of %s found by TLC on Auth.tla (code as found) reproduced on the real application: %s %s under '
-                          'callback %s serves content / feature info outside the request-wide limited_to' % (
-                              inv, req['f'], describe(req), describe_cb(cb)),
+                          'callback %s: %s' % (inv, req['f'], describe(req), describe_cb(cb),
+                                               inst.defect_text if inst.other == 'exact' else
+                                               'serves content / feature info outside the request-wide limited_to'),
                           {'instance': inst.name, 'world': world_json(inst.world), 'geoms': {k: g.json() for k, g in inst.geoms.items()},
                            'req': tla.jsonable(req), 'cb': tla.jsonable(cb), 'variant': 1, 'fmt': 'png', 'url': obs['url']})
 
@@ -1338,8 +1691,8 @@ def run(ctx):
     tlc.sany(SPEC)
     insts = instances(ctx.tier)
     apps = Apps(ctx)
-    import collections
     stats = collections.Counter()
+    xstats = collections.Counter()
     try:
         t0 = time.time()
         seen_situations = set()
@@ -1347,8 +1700,25 @@ def run(ctx):
         insts_tables = []
         for inst in insts:
             tables = {}
-            need = {a for a in ACTIONS if any(applies(a, q['f']) for q in inst.requests)}
-            if 'repaired' in inst.variants:
+            need = {a for a in ACTIONS if any(applies(a, q['f'], inst.world, q['box']) for q in inst.requests)}
+            if 'exact' in inst.variants:
+                # (M) the reference model (sub-image of a GetMap reaching beyond the SRS extent not displaced) satisfies the
+                # property on the whole universe ...
+                r = run_model(ctx, inst, False, BASE_INV + PROPERTY, True, 'exact', exact=True)
+                if not r.ok:
+                    raise tlc.MachineryError('Auth.tla (%s, reference variant): %r\n%s' % (inst.name, r, r.out[-1500:]))
+                tables['exact'] = cases_of(r)
+                vacuity_guard('Auth ' + inst.name, inst, r, tables['exact'], need)
+                # ... the model of the code as found does not satisfy ClippedOutside; its terminal states are the table for the code
+                rf = run_model(ctx, inst, False, BASE_INV + ['DeniedStaysDark', 'InfoGateOK'], True, 'found')
+                if not rf.ok:
+                    raise tlc.MachineryError('Auth.tla (%s, code as found): %r\n%s' % (inst.name, rf, rf.out[-1500:]))
+                tables['found'] = cases_of(rf)
+                vacuity_guard('Auth ' + inst.name, inst, rf, tables['found'], need)
+                ctx.add_tlc('Auth %s (sub-image not displaced), property checked' % inst.name, r)
+                ctx.add_tlc('Auth %s (code as found), terminal states' % inst.name, rf)
+                ext_table_guard(inst, tables['found'], xstats)
+            elif 'repaired' in inst.variants:
                 # (M) with both limits applied the model satisfies the property on the whole universe ...
                 r = run_model(ctx, inst, True, BASE_INV + PROPERTY, True, 'repaired')
                 if not r.ok:
@@ -1376,11 +1746,13 @@ def run(ctx):
                 seen_situations |= table_guard(inst.name, t)
                 npruned += sum(1 for v in t.values() if v[3])
             for vname, t in tables.items():
-                if any(not v[4] for v in t.values()) and not (vname == 'found' and 'repaired' in tables):
+                if any(not v[4] for v in t.values()) and not (vname == 'found' and inst.other in tables):
                     raise tlc.MachineryError('%s/%s: unexpected property verdicts in the printed table' % (inst.name, vname))
             insts_tables.append(tables['found'])
             if inst is insts[0]:
                 attack(ctx, apps, inst, tables)
+            if inst.other == 'exact' and thorough:
+                attack(ctx, apps, inst, tables, invs=('ClippedOutside',))
             replay_table(ctx, apps, inst, tables, 'spec->code')
         for need in ('status200', 'status401', 'status403', 'wms:dark', 'wms:content', 'wms:band', 'tms:dark', 'tms:content', 'tms:band',
                      'wmts:dark', 'kml:band', 'wms:info', 'wms:noinfo', 'wmts:info', 'wmts:noinfo'):
@@ -1417,6 +1789,21 @@ def run(ctx):
                     need, stats[need], least))
         ctx.notes.append('oblique worlds (tile requests under densified EPSG:4326 areas on a polar stereographic grid): '
                          + ', '.join('%s=%d' % kv for kv in sorted(stats.items())))
+
+        # (T) code -> spec, worlds whose WMS service declares an extent for the request SRS: GetMap (png, jpeg) / GetFeatureInfo
+        # inside, across one, two, all four edges of the extent, outside
+        random_traces(ctx, apps, nworlds=(6 if thorough else 3), nevents=(1200 if thorough else 400), pool=EXT_POOL, stats=xstats)
+        ctx.log('worlds with an SRS extent: ' + ', '.join('%s=%d' % kv for kv in sorted(xstats.items())))
+        for need, least in (('map:inside', 20), ('map:clipped:1-edges', 30), ('map:clipped:2-edges', 30), ('map:clipped:4-edges', 10),
+                            ('map:clipped:limit-in-force', 100), ('map:clipped:layer-limit', 50), ('map:clipped:request-limit', 50),
+                            ('map:clipped:limit-border-in-the-pasted-part', 40), ('map:clipped:jpeg', 10), ('map:clipped:alias-code', 10),
+                            ('map:blank-answer', 20), ('map:blank-answer:partial', 10), ('featureinfo:box-inside', 3),
+                            ('featureinfo:box-clipped', 10), ('featureinfo:box-blank', 5), ('featureinfo:answered:box-clipped', 3),
+                            ('featureinfo:answered:box-blank', 1)):
+            if xstats[need] < least:
+                raise tlc.MachineryError('the worlds with an SRS extent exercised the class %r only %d times (at least %d expected): '
+                                         'vacuous check' % (need, xstats[need], least))
+        ctx.notes.append('worlds with an SRS extent (bbox_srs): ' + ', '.join('%s=%d' % kv for kv in sorted(xstats.items())))
     finally:
         apps.close()
     ctx.assumptions += [
@@ -1437,8 +1824,24 @@ def run(ctx):
             DENSE_EPS, DENSE_EPS, json.dumps(SPARSE_SIG, sort_keys=True)),
         'oblique worlds: WMS requests in EPSG:4326 against the polar grid, tiles containing the pole, and the exhaustive (model '
         'checked) instances are same-SRS only / not covered',
-        'requests lie inside the extent of the tile grid; upstreams answer every request with a flat colour; caches do not store '
-        '(every rendered layer reaches its upstream)',
+        'requests lie inside the extent of the tile grid (worlds with an SRS extent: the GetFeatureInfo boxes and the part of a GetMap '
+        'inside the SRS extent do; the SRS extent lies inside the tile grid); upstreams answer every request with a flat colour; '
+        'caches do not store (every rendered layer reaches its upstream)',
+        'worlds with an SRS extent (services: wms: bbox_srs for EPSG:3857 and EPSG:900913; same-SRS lattice worlds only): the extent is '
+        'a lattice rectangle %s (exhaustive instance) / %s (random requests) whose edges are no multiples of the pixel sizes; GetMap '
+        'boxes lie inside the extent, across one, two, three or all four of its edges, or outside (also touching it from outside), '
+        'inside the rectangle %s; the part of a request inside the extent is at least one pixel row and column of the sub-query '
+        '(bbox_position_in_image gives a sub-query of size 0 otherwise and MapProxy answers 500 Internal Server Error, e.g. extent '
+        '[35,45,905,425], BBOX=20,30,40,50 WIDTH=1 HEIGHT=1: not modelled, not part of C10) and the sub-query is not coarser than %d '
+        'units per pixel (cached layers answer blank beyond 4 x the coarsest grid resolution).  The offsets of the pasted rectangle are '
+        'exact in the model (integers: int() of the float quotient is the floor of the exact quotient); the centre of a pixel of the '
+        'sub-query is rounded to doubled lattice units and the one-pixel band of the masks is widened by one lattice unit (sound: the '
+        'model of the code allows no less than the code can do).  GetCapabilities is not requested in these worlds (with bbox_srs the '
+        'document fails with 500 when the limited_to area of a permitted layer misses the SRS extent: Capabilities.layer_srs_bbox, '
+        'intersection None; not part of C10)' % (list(EXT), ', '.join(str(d['ext']) for d in EXT_POOL), list(EXT_REQ_WINDOW), MAX_RES),
+        'a GetMap that does not meet the SRS extent is answered with a blank image without the authorization callback being asked '
+        '(also 200 instead of 401 / 403): modelled as it is (OutsideExtent), no content results',
+        'ContentInside demands content only more than one pixel inside the SRS extent (the unrestricted rendering has none outside)',
         '"one pixel" is the larger of the two pixel sides; pixels whose centre is within one pixel of the boundary of an area may '
         'have either value; a feature-info point exactly on the boundary may be answered either way',
         'the query point of GetFeatureInfo is the upper left corner of pixel (I, J), as the code computes it',
@@ -1449,13 +1852,16 @@ def run(ctx):
     return ctx.finish('model_checking',
                       'TLC: all (request, callback result) pairs of the stated universes (1-3 layers with a group, all services); every '
                       'pair executed on the real application; distinct = distinct (case, observation) pairs plus distinct recorded '
-                      'random requests (same-SRS worlds and oblique worlds: polar stereographic grid, EPSG:4326 areas)',
-                      extra={'oblique_worlds': dict(stats)})
+                      'random requests (same-SRS worlds, worlds with an SRS extent, oblique worlds: polar stereographic grid, EPSG:4326 '
+                      'areas)',
+                      extra={'oblique_worlds': dict(stats), 'srs_extent_worlds': dict(xstats)})
 
 
-def applies(action, f):
-    wms = f in ('wms.map', 'wms.fi')
-    return {'CollectLayers': wms, 'CallAuthorize': wms, 'FilterActualLayers': wms, 'RenderAndMerge': f == 'wms.map',
+def applies(action, f, world=None, box=None):
+    blank = f == 'wms.map' and world is not None and ext_relation(world, box)[0] == 'blank'
+    wms = f in ('wms.map', 'wms.fi') and not blank
+    return {'OutsideExtent': blank,
+            'CollectLayers': wms, 'CallAuthorize': wms, 'FilterActualLayers': wms, 'RenderAndMerge': f == 'wms.map' and not blank,
             'InfoGate': f == 'wms.fi', 'WmsCapabilities': f == 'wms.caps',
             'TileAuthorize': f in TILE_WITH_COVERAGE + ('tms.layer', 'kml.doc'),
             'TileRender': f in ('tms', 'kml', 'wmts.kvp', 'wmts.rest'), 'TileInfoGate': f in ('wmts.fi.kvp', 'wmts.fi.rest'),
@@ -1481,6 +1887,11 @@ def replay(ctx, data):
         for row in obs['px']:
             print('          ' + ' '.join('%-4s' % NAMES_OF.get(c, '?') for c in row))
         r, acc_found, acc_comb, bad = validate_events(ctx, world, geoms, [event_json(world, req, cb, obs, geoms)], 'replay')
+        if world.ext:
+            rel, sub = ext_relation(world, req['box']) if req['f'] == 'wms.map' else ('-', None)
+            print('SRS extent %s: %s%s; reference model (sub-image not displaced): %s' % (
+                list(world.ext), rel, ' (pasted columns %d..%d, rows %d..%d)' % (sub[0], sub[1] - 1, sub[2], sub[3] - 1) if sub else '',
+                'accepted' if r.acc_exact else 'REJECTED' if rel == 'clipped' else 'not run'))
         print('Trace_Auth: %s by the model of the code as found, %s by the model with both limits applied; property on the observation: %s' % (
             'accepted' if acc_found else 'REJECTED', 'accepted' if acc_comb else 'REJECTED',
             ('VIOLATED' + (' (content outside an area)' if r.bad_outside else '') + (' (content missing well inside)' if r.bad_inside else ''))
@@ -1488,7 +1899,7 @@ def replay(ctx, data):
         if world.frame:
             print('oblique world: grid %s, areas given in EPSG:4326 (%s)' % (
                 world.srs, ', '.join('%s: %s' % (k, 'sparse' if g.sparse else 'densified') for k, g in sorted(geoms.items()))))
-        rc = 1 if bad or not (acc_found or acc_comb) else 0
+        rc = 1 if bad or not (acc_found or acc_comb or r.acc_exact) else 0
         return rc
     finally:
         apps.close()
